@@ -58,7 +58,8 @@ def judge_finite(ctx, cls, desc, p_ref, lp, pr, ent, mode_idx, smp_idx, ss_idx, 
     p_ref (M,) float64 reference probabilities from the definition; lp/pr (M,) real log_prob/prob on the
     support; ent real entropy; mode_idx index of the real mode in the support (-1 outside); smp_idx (S,)
     indices of real samples (-1 outside); ss_idx/sl (K,) real sample_and_log_prob; lps (K,) real
-    log_prob(returned sample). wrap_info: (n_classes, raw_samples, raw_mode) to name an int8 wrap."""
+    log_prob(returned sample). wrap_info: what is needed to name the int8 mechanism when a law has more
+    than 128 classes (classes, raw samples, whether the most probable index is >= 128)."""
     from vlib.c15_helpers import ALPHA_CHI, chi_square, note_max, note_min, prob_exp_mismatch, xlogx_sum
 
     lp, pr = np.asarray(lp, np.float64), np.asarray(pr, np.float64)
@@ -109,36 +110,43 @@ def judge_finite(ctx, cls, desc, p_ref, lp, pr, ent, mode_idx, smp_idx, ss_idx, 
             bad("entropy-not-neg-expected-logprob", {"entropy": ent, "minus_sum_p_log_p_real": h_real, "definition": h_ref})
     # mode
     ctx.monitor("mode_checked")
+    int8_wide = wrap_info is not None and wrap_info["classes"] > 128 and np.asarray(wrap_info["raw"]).dtype == np.int8
+    mode_bad = None
     if mode_idx < 0:
-        if wrap_info is not None and _is_int8_wrap(wrap_info[2], wrap_info[0]):
-            bad("mode-int8-wraps-above-128-classes", {"classes": wrap_info[0], "mode_value": wrap_info[2]})
-        else:
-            bad("mode-outside-support", {"mode_value": mode_raw})
+        mode_bad = ("mode-outside-support", {"mode_value": mode_raw})
     elif not p_ref[mode_idx] >= np.max(p_ref) * (1 - 1e-5) - 1e-12:
-        bad("mode-not-most-probable", {"mode_value": mode_raw, "p_mode": p_ref[mode_idx], "p_max": float(np.max(p_ref))})
+        mode_bad = ("mode-not-most-probable", {"mode_value": mode_raw, "p_mode": p_ref[mode_idx], "p_max": float(np.max(p_ref))})
+    if mode_bad is not None:
+        if int8_wide and wrap_info["argmax_unrepresentable"]:
+            # the most probable class index is >= 128 and the mode comes back as int8
+            bad("mode-int8-wraps-above-128-classes", dict(mode_bad[1], classes=wrap_info["classes"], symptom=mode_bad[0]))
+        else:
+            bad(*mode_bad)
     # samples in the support, never of probability zero, and distributed as p_ref
     for name, idx in (("sample", smp_idx), ("sample_and_log_prob", ss_idx)):
         idx = np.asarray(idx)
         ctx.monitor("samples_support_checked", len(idx))
         out = int(np.sum(idx < 0))
+        kname = name.replace("_", "-")
+        wrapkey = f"{kname}-int8-wraps-above-128-classes"
         if out:
-            if wrap_info is not None and _is_int8_wrap(wrap_info[1], wrap_info[0]):
-                bad(f"{name.replace('_', '-')}-int8-wraps-above-128-classes",
-                    {"classes": wrap_info[0], "outside": out, "of": len(idx), "example": np.asarray(wrap_info[1]).ravel()[:8]})
+            if int8_wide:
+                bad(wrapkey, {"classes": wrap_info["classes"], "outside": out, "of": len(idx),
+                              "example": np.asarray(wrap_info["raw"]).ravel()[:8]})
             else:
-                bad(f"{name.replace('_', '-')}-outside-support", {"outside": out, "of": len(idx)})
-        if out:
+                bad(f"{kname}-outside-support", {"outside": out, "of": len(idx)})
             continue  # the draws are not elements of the support: nothing further to compare
         counts = np.bincount(idx, minlength=M)
         stat, dof, pval, impossible = chi_square(counts, p_ref)
         if impossible:
-            bad(f"{name.replace('_', '-')}-has-zero-probability", {"draws": impossible, "of": len(idx)})
+            bad(wrapkey if int8_wide else f"{kname}-has-zero-probability", {"draws_of_zero_probability": impossible, "of": len(idx)})
         if dof >= 1:
             ctx.monitor("chi_square_tests")
-            note_min(ctx, "min_chi_square_pvalue", pval)
+            if not int8_wide:
+                note_min(ctx, "min_chi_square_pvalue", pval)
             if pval < ALPHA_CHI:
                 top = np.argsort(-np.abs(counts - p_ref * counts.sum()))[:6]
-                bad(f"{name.replace('_', '-')}s-do-not-follow-probs",
+                bad(wrapkey if int8_wide else f"{kname}s-do-not-follow-probs",
                     {"chi2": stat, "dof": dof, "p": pval, "draws": int(counts.sum()), "cells": top,
                      "observed": counts[top], "expected": p_ref[top] * counts.sum()})
     # sample_and_log_prob returns the log-probability of the sample it returns
@@ -156,22 +164,14 @@ def judge_finite(ctx, cls, desc, p_ref, lp, pr, ent, mode_idx, smp_idx, ss_idx, 
         i = int(np.argmax(d - tol2))
         wit = {"sample_support_index": int(ss_idx[i]), "returned_log_prob": float(sl[i]),
                "log_prob_of_returned_sample": float(lps[i]), "log_prob_of_same_value_as_int32": float(lp[ss_idx[i]])}
-        int8_wide = wrap_info is not None and wrap_info[0] > 128 and np.asarray(wrap_info[1]).dtype == np.int8
         if int8_wide and sl[i] == -np.inf and lps[i] == -np.inf and np.isfinite(lp[ss_idx[i]]):
             # the int8 sample is in the support, yet its log-probability comes back as -inf
-            bad("log-prob-of-int8-sample-minus-inf-above-128-classes", dict(wit, classes=wrap_info[0]))
+            bad("log-prob-of-int8-sample-minus-inf-above-128-classes", dict(wit, classes=wrap_info["classes"]))
+        elif int8_wide:
+            bad("sample-and-log-prob-int8-wraps-above-128-classes", dict(wit, classes=wrap_info["classes"]))
         else:
             bad("sample-and-log-prob-inconsistent", wit)
     return ok
-
-
-def _is_int8_wrap(raw, n):
-    raw = np.asarray(raw)
-    if raw.dtype != np.int8 or n <= 128:
-        return False
-    r = raw.astype(np.int64).ravel()
-    neg = r[r < 0]
-    return neg.size > 0 and bool(np.all((neg + 256) < max(n, 256)))
 
 
 # --------------------------------------------------------------------------------------
@@ -277,10 +277,11 @@ def u_categorical(ctx):
             return np.where((a >= 0) & (a < n), a, -1)
         m = int(np.asarray(o["mode"]))
         judge_finite(ctx, cls, desc, p_ref, o["lp"], o["pr"], o["ent"], int(idx(m)), idx(o["smp"]), idx(o["ss"]),
-                     o["sl"], o["lps"], mode_raw=m, wrap_info=(n, np.asarray(o["smp"]), np.asarray(o["mode"])))
+                     o["sl"], o["lps"], mode_raw=m, wrap_info={"classes": n, "raw": np.asarray(o["smp"]),
+                                             "argmax_unrepresentable": int(np.argmax(p_ref)) >= 128})
 
     ns = [2, 3, 5, 17, 128]
-    B = ctx.n(6, 48)
+    B = ctx.n(6, 96)
     ki = 0
     for form in ("logits", "probs"):
         for n in ns:
@@ -427,7 +428,7 @@ def u_bernoulli(ctx):
                 if pval < ALPHA_CHI:
                     ctx.violation("bernoulli-elements-not-independent", {"case": desc, "chi2": stat, "dof": dof, "p": pval})
 
-    B = ctx.n(9, 60)
+    B = ctx.n(9, 120)
     kinds = ("gauss", "range", "edge")
     ki = 0
     for form in ("logits", "probs"):
@@ -529,7 +530,9 @@ def u_multicategorical(ctx, which):
             return np.where(inside, np.ravel_multi_index(tuple(np.where(inside[:, None], a, 0).T), dims), -1)
         judge_finite(ctx, "multicategorical", desc, p_ref, o["lp"], o["pr"], o["ent"], int(idx(o["mode"])[0]),
                      idx(o["smp"]), idx(o["ss"]), o["sl"], o["lps"], mode_raw=np.asarray(o["mode"]),
-                     lp_tol_scale=float(k), wrap_info=(max(dims), np.asarray(o["smp"]), np.asarray(o["mode"])))
+                     lp_tol_scale=float(k),
+                     wrap_info={"classes": max(dims), "raw": np.asarray(o["smp"]),
+                                "argmax_unrepresentable": any(int(np.argmax(c)) >= 128 for c in comps)})
         # product law: joint log_prob / entropy == sums over the independently constructed components
         want = np.zeros(len(support))
         for j in range(k):
@@ -571,7 +574,7 @@ def u_multicategorical(ctx, which):
             _raises(ctx, "multicategorical", "vmap", e, {"form": form, "dims": dims})
             return None, None
 
-    B = ctx.n(4, 32)
+    B = ctx.n(4, 48)
     ki = 0
     for dims in MC_DIMS:
         for form in MC_FORMS:
@@ -828,7 +831,7 @@ def u_normal(ctx):
 
     B = 16
     f = eqx.filter_jit(jax.vmap(make(S)))
-    for rep in range(ctx.n(3, 30)):
+    for rep in range(ctx.n(3, 120)):
         prm = [gen_normal_params(ctx.rng, i) for i in range(B)]
         geo = [normal_geom(l, s) for l, s in prm]
         try:
@@ -948,7 +951,7 @@ def u_squashednormal(ctx):
 
     B = 16
     f = eqx.filter_jit(jax.vmap(make(S)))
-    for rep in range(ctx.n(4, 40)):
+    for rep in range(ctx.n(4, 160)):
         bnd = [gen_bounds(ctx.rng, rep * B + i) for i in range(B)]
         prm = [gen_squashed_params(ctx.rng, i, *bnd[i]) for i in range(B)]
         geo = [squashed_geom(*prm[i], *bnd[i]) for i in range(B)]
@@ -1246,7 +1249,7 @@ def u_mvn(ctx):
     B = 8
     for D in (2, 1, 3, 6):
         f = eqx.filter_jit(jax.vmap(make_nd(build, comp, D, S, K, ent_state, D == 2)))
-        for rep in range(ctx.n(2, 20) if D != 2 else ctx.n(3, 24)):
+        for rep in range(ctx.n(2, 50) if D != 2 else ctx.n(3, 60)):
             prms = [[gen_normal_params(ctx.rng, int(ctx.rng.integers(0, 3))) for _ in range(D)] for _ in range(B)]
             geos = [geoms_for(p) for p in prms]
             geos2 = [geoms_for(p, G2) for p in prms] if D == 2 else [None] * B
@@ -1350,7 +1353,7 @@ def u_squashedmvn(ctx):
             continue
         bld, cmp_ = builders(bform)
         f = eqx.filter_jit(jax.vmap(make_nd(bld, cmp_, D, S, K, ent_state, D == 2)))
-        for rep in range(ctx.n(2, 16) if D != 2 else ctx.n(3, 20)):
+        for rep in range(ctx.n(2, 30) if D != 2 else ctx.n(3, 40)):
             cases = [gen_case(D, bform, b) for b in range(B)]
             geos = [geoms_for(*c) for c in cases]
             geos2 = [geoms_for(*c, G2) for c in cases] if D == 2 else [None] * B
